@@ -153,7 +153,10 @@ def gen_location(rng, cur):
 MALFORMED = [b"http://", b"http://:80/x", b"http://a.test:99999/", b"http://a b/", b"https://[::1", b"http://a.test:x/"]
 
 
-def gen_chain(rng, hops=None, with_explicit_host=None, add_at_hops=True, malformed_prob=0.0, body_resp_prob=0.3):
+NONTEXT = [b"/caf\xff/page", b"/p\xe9", b"http://b.test/x\x80y", b"?q=\xfe", b"../\xc3\x28"]
+
+
+def gen_chain(rng, hops=None, with_explicit_host=None, add_at_hops=True, malformed_prob=0.0, body_resp_prob=0.3, readd_original=False):
     """Returns (ops, meta). meta records everything the oracles need."""
     hops = hops if hops is not None else rng.randrange(1, 5)
     scheme = rng.choice(["http", "http", "https"])
@@ -200,6 +203,11 @@ def gen_chain(rng, hops=None, with_explicit_host=None, add_at_hops=True, malform
                 added.append((nm, b"added-h%d-%d" % (h, len(added))))
             if not explicit_host and rng.random() < 0.15:
                 added.append((b"host", b"added-host-h%d.test" % h))
+            if readd_original and rng.random() < 0.4:
+                # the caller re-attaches a header the original request carried, with the identical value
+                cands = [(k, v) for k, v in orig_headers if k in (b"cookie", b"authorization", b"x-keep")]
+                if cands:
+                    added.insert(rng.randrange(0, len(added) + 1), rng.choice(cands))
         for k, v in added:
             ops.append("header %s %s" % (hx(k), hx(v)))
         ops += ["q_uri", "q_method", "proceed", "write_head #100000"]
@@ -220,7 +228,8 @@ def gen_chain(rng, hops=None, with_explicit_host=None, add_at_hops=True, malform
         status = rng.choice(REDIRECT_STATUSES)
         malformed = rng.random() < malformed_prob
         if malformed:
-            loc = rng.choice(MALFORMED)
+            # unresolvable, or not text (a byte >= 0x80 / DEL anywhere, also in the path or query)
+            loc = rng.choice(MALFORMED + NONTEXT)
         else:
             loc = gen_location(rng, cur)
         fields = []
